@@ -70,6 +70,26 @@ def compare_strings_approximate(x, y, threshold=0.7, maxlen=None):
     return s.ratio() > threshold
 
 
+def _get_predicates(config, path):
+    """Look up the predicates for path without registering a default entry.
+
+    Plain item access on the (default)dict would insert the looked-up
+    default as a side effect, which the sanity check in diff_dicts later
+    mistakes for predicates configured on a dict path.
+    """
+    key = path or '/'
+    predicates = config.predicates
+    if key in predicates:
+        return predicates[key]
+    default_values = getattr(predicates, 'default_values', None)
+    if default_values is not None and key in default_values:
+        return default_values[key]
+    default_factory = getattr(predicates, 'default_factory', None)
+    if default_factory is not None:
+        return default_factory()
+    return predicates[key]
+
+
 def diff(a, b, path="", config=None):
     "Compute the diff of two json-like objects, list or dict or string."
 
@@ -112,7 +132,7 @@ def diff_sequence_multilevel(a, b, path="", config=None):
         config = DiffConfig()
 
     # Invoke multilevel snake computation algorithm
-    compares = config.predicates[path or '/']
+    compares = _get_predicates(config, path)
     snakes = compute_snakes_multilevel(a, b, compares)
 
     # Convert snakes to diff
@@ -126,7 +146,7 @@ def diff_lists(a, b, path="", config=None, shallow_diff=None):
         config = DiffConfig()
 
     # If multiple compares are provided to this path, delegate to multilevel algorithm
-    compares = config.predicates[path or '/']
+    compares = _get_predicates(config, path)
     if len(compares) > 1:
         assert shallow_diff is None
         return diff_sequence_multilevel(a, b, path=path, config=config)
